@@ -83,7 +83,7 @@ fn c20_arr_forms() {
 }
 
 // arr![x; N] with a type-level length and arr![x; n] with a constant: N copies of x
-// @gen macro=arr_repeat name=c20_arr_repeat props=C20 quick=U0,0;U1,1;U5,5;U16,16;U255,255;U256,256;U300,300 thorough=U2,2;U64,64;U1000,1000;U1024,1024
+// @gen macro=arr_repeat name=c20_arr_repeat props=C20 quick=U0,0;U1,1;U5,5;U16,16;U255,255;U256,256;U300,300 thorough=U2,2;U64,64;U511,511;U512,512
 macro_rules! arr_repeat {
     ($name:ident, $N:ty, $n:expr) => {
         #[kani::proof]
